@@ -529,6 +529,12 @@ func runCheck(repo, mode string, args []string) int {
 				work = append(work, o.Func)
 			}
 		}
+		// every property other than the front-end ones is a statement about programs given as source text: its proof rests
+		// on the whole pipeline of main.run (scan, parse, interpret), so the front end belongs to its closure as well
+		if !frontEnd[prop] && byName["main.run"] != nil && !inSet["main.run"] {
+			inSet["main.run"] = true
+			work = append(work, "main.run")
+		}
 		for len(work) > 0 {
 			n := work[len(work)-1]
 			work = work[:len(work)-1]
